@@ -146,3 +146,46 @@ Proof.
     apply orb_true_iff in A. destruct A; lia. }
   subst e. apply (reset_buf_clears s t' p' s2 E).
 Qed.
+
+(* --- from the ends, and from "nothing selected": the count plays no role ------- *)
+Lemma reach_next_from_last c t p ls cs count : 0 <= p <= len t ->
+  cst (reach c t p ls) = Some cs -> cs_idx cs = Some (len (cs_comps cs) - 1) ->
+  step (reach c t p ls) (CompleteNext count true) = (reach c t p ls, 0) /\
+  exists s', step (reach c t p ls) (CompleteNext count false) = (s', 0) /\
+    cst s' = Some (cs_with_idx cs None) /\ text s' = dtext (cs_orig cs) /\ cur s' = dcur (cs_orig cs).
+Proof.
+  intros H Hc Hi. destruct (reach_menu c t p ls cs _ H Hc Hi) as (HI & M).
+  cbn [step]. unfold complete_next. rewrite Hc, Hi, Z.eqb_refl. split; [reflexivity|].
+  destruct (gtc_menu _ cs None HI M Logic.I) as (s' & A & _ & (B & _) & C).
+  exists s'. split; [exact A|]. split; [exact B|].
+  rewrite (ntp_none_idx (cs_with_idx cs None) eq_refl) in C. inversion C. auto.
+Qed.
+
+Lemma reach_prev_from_first c t p ls cs count : 0 <= p <= len t ->
+  cst (reach c t p ls) = Some cs -> cs_idx cs = Some 0 ->
+  step (reach c t p ls) (CompletePrev count true) = (reach c t p ls, 0) /\
+  exists s', step (reach c t p ls) (CompletePrev count false) = (s', 0) /\
+    cst s' = Some (cs_with_idx cs None) /\ text s' = dtext (cs_orig cs) /\ cur s' = dcur (cs_orig cs).
+Proof.
+  intros H Hc Hi. destruct (reach_menu c t p ls cs _ H Hc Hi) as (HI & M).
+  cbn [step]. unfold complete_prev. rewrite Hc, Hi. cbn [Z.eqb]. split; [reflexivity|].
+  destruct (gtc_menu _ cs None HI M Logic.I) as (s' & A & _ & (B & _) & C).
+  exists s'. split; [exact A|]. split; [exact B|].
+  rewrite (ntp_none_idx (cs_with_idx cs None) eq_refl) in C. inversion C. auto.
+Qed.
+
+Lemma reach_from_none c t p ls cs count w : 0 <= p <= len t ->
+  cst (reach c t p ls) = Some cs -> cs_idx cs = None -> 1 <= len (cs_comps cs) ->
+  (exists s', step (reach c t p ls) (CompleteNext count w) = (s', 0) /\
+     cst s' = Some (cs_with_idx cs (Some 0)) /\ ntp (cs_with_idx cs (Some 0)) = Some (text s', cur s')) /\
+  (exists s', step (reach c t p ls) (CompletePrev count w) = (s', 0) /\
+     cst s' = Some (cs_with_idx cs (Some (len (cs_comps cs) - 1))) /\
+     ntp (cs_with_idx cs (Some (len (cs_comps cs) - 1))) = Some (text s', cur s')).
+Proof.
+  intros H Hc Hi Hn. pose proof (reachc_Inv (current c) t p ls H) as HI.
+  assert (M : menu (reach c t p ls) cs).
+  { split; [exact Hc|]. split; [unfold idx_ok; rewrite Hi; exact Logic.I|exact Hn]. }
+  split; cbn [step]; [unfold complete_next|unfold complete_prev]; rewrite Hc, Hi.
+  - destruct (gtc_menu _ cs (Some 0) HI M) as (s' & A & _ & (B & _) & C); [lia|]. eauto.
+  - destruct (gtc_menu _ cs (Some (len (cs_comps cs) - 1)) HI M) as (s' & A & _ & (B & _) & C); [lia|]. eauto.
+Qed.
